@@ -172,7 +172,7 @@ CHECKS = {
         "level": "other",
         "ref": "DESIGN.md §5 C13",
         "technique": 'argument provenance of span endpoints and token values over MIR (LR, lexer, GLR), LR/GLR sibling agreement, byte-unit rule, validation of generated recognisers',
-        "text": "Decides where span endpoints come from on shift/reduce/empty-reduce (LR and GLR), that the two parsers anchor empty spans alike, the lexer's token value/span/input slice, whitespace skipping, Tree::build span hand-off, that position_after measures in bytes, and on generated code that recognisers return input slices and anchor regexes as a whole (two known findings). Partial: not the arithmetic of line/column, not ordering of spans for concrete inputs.",
+        "text": "Decides where span endpoints come from on shift/reduce/empty-reduce (LR and GLR), that the two parsers anchor empty spans alike, the lexer's token value/span/input slice, whitespace skipping, Tree::build span hand-off, that position_after measures in bytes with `\\n` as the only line terminator (line, column after/without a newline, offset), and on generated code that recognisers return input slices and anchor regexes as a whole (two known findings). Partial: not ordering of spans for concrete inputs.",
         "note": 'Trusted: rustc MIR; Context implementations are trivial setters/getters.',
     },
     "C14": {
@@ -188,15 +188,15 @@ CHECKS = {
         "level": "other",
         "ref": "DESIGN.md §5 C03",
         "technique": 'keying/provenance rules and guard rules over MIR by path simulation (GLR shifter, reducer, frontier, forest); thin claim',
-        "text": "THIN: decides the structural clauses with an oracle in the definition of a GSS / right-nulled table: shifted heads keyed by (state, position), sub-frontiers keyed consistently, right-nulled lengths, SPPF node label on child replacement, accept/forest collection, index past the end. The reducer's re-queue discipline (completeness, duplicates, counts) and the index decoding are declined: no independent oracle.",
-        "note": 'Trusted: rustc MIR. A wrong re-queue condition in the reducer is invisible to this check (stated in the evidence).',
+        "text": "THIN: decides the structural clauses with an oracle in the definition of a GSS / right-nulled table: shifted heads keyed by (state, position), sub-frontiers keyed consistently, right-nulled lengths, SPPF node label on child replacement, accept/forest collection, index past the end, and the registration table of the reducer against the RNGLR rules (new node: its shifts, reductions and accept; new edge on an old node: only reductions of length > 0 over that edge). The index decoding of solutions()/get_tree() is declined: no independent oracle.",
+        "note": 'Trusted: rustc MIR; Scott & Johnstone (RNGLR) for the registration table. That the worklist as a whole terminates with the complete forest is not decided.',
     },
     "C06": {
         "engine": "mirfacts",
         "level": "other",
         "ref": "DESIGN.md §5 C06",
         "technique": 'finite decision tables (sort key, finish flags, lexer stop rule, GLR filter) and provenance/sibling rules over MIR',
-        "text": "Decides the structure of lexical disambiguation: candidate set, stable descending sort and key table, finish-flag tables, the lexer's stop table, LR/GLR parser-side filters and their sibling agreement, kind->recogniser mapping; one known finding (priority-group cut). Partial: not which token wins for concrete regexes and inputs.",
+        "text": "Decides the structure of lexical disambiguation: candidate set, stable descending sort and key table, finish-flag tables, the lexer's stop table, LR/GLR parser-side filters and their sibling agreement, kind->recogniser mapping, shifted heads of lexical alternatives kept apart by position (shared with C03-R2); one known finding (priority-group cut). Partial: not which token wins for concrete regexes and inputs.",
         "note": 'Trusted: rustc MIR; documented order of strategies (docs lexical ambiguities).',
     },
     "C07": {
@@ -204,7 +204,7 @@ CHECKS = {
         "level": "other",
         "ref": "DESIGN.md §5 C07",
         "technique": 'sibling agreement: decisions of the LR and GLR runtimes reduced to common terms/tables from MIR and compared',
-        "text": 'Every decision both runtimes take (empty-span anchor, shift geometry, reduction spans, lexical filtering, STOP synthesis, error construction, layout-parser construction, replay protocol, table selection, right-nulled table) is extracted from both implementations and compared; a disagreement means some input is treated differently. Partial: not tree equality for concrete grammars.',
+        "text": 'Every decision both runtimes take (empty-span anchor, shift geometry, reduction spans, lexical filtering, STOP synthesis, error construction, layout-parser construction and the layout-state bracket of the token fetch, replay protocol, table selection, right-nulled table) is extracted from both implementations and compared; a disagreement means some input is treated differently. Partial: not tree equality for concrete grammars.',
         "note": 'Trusted: rustc MIR of both generic runtimes.',
     },
     "C01": {
